@@ -394,6 +394,29 @@ def check_C03(chk):
                 psub = tuple(sum(c[i] for n, c in t2["suites"]) for i in range(4))
                 if psub != exp:
                     chk.violation("text-subtotals-second-run", "second (forked) run after an in-process run: printed per-suite lines add up to %s but %s happened" % (psub, exp), rp2)
+    # ---- a check that fails in a suite-level fixture run around a sub-suite (in the runner's process; its record is read
+    # when the next test or the suite finishes) is a failing check that happened: it must be in the totals.  Judged on the
+    # implementation alone (the runner model has no scripts for these fixtures)
+    T, S = L.Test, L.Suite
+    fx = []
+    for rep in ("text", "cute", "xml", "libxml"):
+        fx.append((S(0, children=[S(1, has_setup=True, has_teardown=True, children=[S(2, children=[T(0, body=[("c", 1)])])]), T(1, body=[("c", 1)])]), rep, "t", "s1", 2))
+        fx.append((S(0, has_setup=True, has_teardown=True, children=[S(1, children=[T(0, body=[("c", 1)])])]), rep, "t", "s0", 1))
+    with ThreadPoolExecutor(vlib.NPROC) as ex:
+        fruns = list(ex.map(lambda c: L.run_impl(drv, c[0], c[1], "forked", scn_extra="F 90 %s\na 90 %s fail\n" % (c[3], c[2])), fx))
+    for (root, rep, which, sname, npass), run in zip(fx, fruns):
+        chk.case(("suite-fixture", rep, which, sname))
+        chk.count("suite-fixture-check")
+        sd = L.log_sdone(run)
+        tot = None
+        for row in sd:
+            if row[2] == 0:
+                tot = row[3]
+        if run.timeout or tot is None:
+            continue
+        if tot != (npass, 1, 0, 0):
+            chk.violation("totals-suite-fixture", "a check fails in the teardown of suite %s (run around its sub-suite): totals %s, but %d passes and 1 failure happened (reporter %s)" % (
+                sname, tot, npass, rep), replay_of(root, rep, "forked", {"extra_scenario_lines": "F 90 %s / a 90 t fail" % sname, "stdout": run.stdout[-1500:]}))
     return chk.finish()
 
 
